@@ -20,6 +20,10 @@ Subset (anything else raises c2lean.Untranslatable = the tie is broken, never si
     preconditions of the function (info["preconditions"]); debug asserts are no-ops under NDEBUG.
   * (double)INTEGER-LITERAL is folded with IEEE rounding ((double)UINT64_MAX = 2^64); other int -> double conversions
     are exact in the model (assumption: the values are below 2^53).
+  * PARTIAL functions (gen_rngdist.PARTIAL: cmb_random_std_gamma): the leading statements (asserts, guards with early return)
+    are translated; from the first declaration of a function-static or the first loop on, the rest of the body is ONE abstract
+    input `x_rest` (the Marsaglia-Tsang rejection loop is not modelled).  A call of the function itself is an abstract input
+    `x_self<i>` together with the number of raw words it consumed, `n_self<i>` (the draw counter advances by it).
   * a full expression with two side effects on the same variable, or a side effect on a variable it also reads elsewhere,
     is rejected (unsequenced in C).
 """
@@ -70,6 +74,7 @@ class FnInfo:
         self.libm = []            # abstract libm functions it (transitively) needs, in order
         self.statics = []         # (lean name, lean type)
         self.ext = []             # (lean name, what)
+        self.ext_nat = []         # (lean name, what): numbers of raw words consumed by abstract self calls
         self.fuel = False
         self.pre = []             # texts of release asserts
         self.struct_ret = None
@@ -187,6 +192,8 @@ class DistTranslator:
                 if "k_" not in acc:
                     acc.append("k_")
         if k == "UnaryExprOrTypeTraitExpr":
+            return acc
+        if k == "AbstractRest":
             return acc
         for c in kids(n):
             self.assigned(c, acc)
@@ -523,6 +530,16 @@ class DistTranslator:
             pre.append("let %s := raw_ k_" % c)
             pre.append("let k_ := k_ + 1")
             return c
+        if callee == f.info.name:
+            if f.loop_depth:
+                raise Untranslatable("recursive call inside a loop")
+            i = len(f.info.ext_nat) + 1
+            what = "%s(%s)" % (callee, ", ".join(self.expr(a, f, []) for a in args))
+            f.info.ext.append(("x_self%d" % i, "the value of the recursive call " + what))
+            f.info.ext_nat.append(("n_self%d" % i, "the number of raw words the recursive call " + what + " consumed"))
+            f.info.draws = True
+            pre.append("let k_ := k_ + n_self%d" % i)
+            return "x_self%d" % i
         if callee in EXTERNAL:
             if f.loop_depth:
                 raise Untranslatable("call of the untranslated sampler %s inside a loop" % callee)
@@ -723,6 +740,9 @@ class DistTranslator:
         simple = self.simple_stmt(s, f)
         if simple is not None:
             return simple + self.blk(rest, ctx, f)
+        if k == "AbstractRest":
+            f.info.ext.append(("x_rest", s["what"]))
+            return [self.ret_term("x_rest", f)]
         if k == "ReturnStmt":
             if f.loop_depth:
                 raise Untranslatable("return inside a loop")
@@ -847,7 +867,20 @@ class DistTranslator:
         raise Untranslatable("statement kind %s outside the subset" % k)
 
     # ---- functions ---------------------------------------------------------------------------------------
-    def function(self, fn):
+    @staticmethod
+    def cut_body(body):
+        """PARTIAL functions: keep the leading statements, replace the rest by one abstract input"""
+        ss = kids(body)
+        for i, st in enumerate(ss):
+            k = st.get("kind")
+            static_decl = k == "DeclStmt" and any(v.get("storageClass") == "static" for v in kids(st))
+            loop = k in ("ForStmt", "WhileStmt") or (k == "DoStmt" and not DistTranslator.debug_assert_noop(st))
+            if static_decl or loop:
+                what = "statements %d..%d of the body (%s ...): not modelled" % (i + 1, len(ss), "function-static cache" if static_decl else "loop")
+                return {"kind": "CompoundStmt", "inner": ss[:i] + [{"kind": "AbstractRest", "what": what}]}
+        return body
+
+    def function(self, fn, partial=False):
         name = fn["name"]
         info = FnInfo(name)
         f = type("F", (), {})()
@@ -862,17 +895,20 @@ class DistTranslator:
                 body = c
         rt = qt(fn).split("(")[0].strip()
         info.ret = self.rep_of_type(rt)
+        if partial:
+            body = self.cut_body(body)
 
         def has(n, kind):
             return isinstance(n, dict) and (n.get("kind") == kind or any(has(c, kind) for c in kids(n)))
         info.fuel = has(body, "WhileStmt")
         # does it draw (directly or through a callee)?  needed before translating `return`
-        info.draws = "k_" in self.assigned(body)
-        self.fns[name] = info          # (recursion is not supported: a self call would see incomplete info)
+        self.fns[name] = info
+        info.draws = "k_" in self.assigned(body) or self.calls_self(body, name)          # (recursion is not supported: a self call would see incomplete info)
         lines = self.blk([body], ("fn",), f)
         sig = ["(%s : %s)" % p for p in info.params]
         sig += ["(%s : K → K)" % m if m != "fpow" else "(fpow : K → K → K)" for m in info.libm]
         sig += ["(%s : K)" % nm for nm, _ in info.ext]
+        sig += ["(%s : Nat)" % nm for nm, _ in info.ext_nat]
         sig += ["(%s : %s)" % p for p in info.statics]
         if info.draws:
             sig += ["(raw_ : Nat → Nat) (k_ : Nat)"]
@@ -885,6 +921,13 @@ class DistTranslator:
             rt_l = "Option (%s)" % rt_l
         text = "def %s %s : %s :=\n%s\n" % (name, " ".join(sig), rt_l, "\n".join(ind(lines)))
         return text, info
+
+    def calls_self(self, n, name):
+        if not isinstance(n, dict):
+            return False
+        if n.get("kind") == "CallExpr" and strip(kids(n)[0]).get("referencedDecl", {}).get("name") == name:
+            return True
+        return any(self.calls_self(c, name) for c in kids(n))
 
     def struct_decl(self, name):
         fs = self.structs.get(name)
